@@ -258,11 +258,13 @@ func (g *gen) indexerHistory(rounds int) {
 	r := g.r
 	batch := vhlib.Pick(r, 1, 3, 100)
 	g.tr.Line(fmt.Sprintf("reset profile=I batch=%d", batch), "")
-	lw := newL2World(g.w, batch)
-	defer lw.close()
+	// the stored settings exist before the managers are created (a ConfigManager only learns about settings
+	// that go through it or that it loads at start)
 	g.setup("name=UpdateSettings v=3")
 	g.setup(g.addContractLine(false, false))
 	g.setup(g.addContractLine(true, false))
+	lw := newL2World(g.w, batch)
+	defer lw.close()
 	for i := 0; i < rounds; i++ {
 		line := fmt.Sprintf("op name=I.SyncDB mine=%d restart=%d", 1+r.Intn(4), r.Intn(2))
 		lw.doSync(g.tr, parseLine(line), func(n int, kinds string) []int {
